@@ -2,12 +2,12 @@ package main
 
 import (
 	"fmt"
-	"os"
 	"go/constant"
 	"go/token"
 	"go/types"
 	"math"
 	"math/big"
+	"os"
 	"strings"
 
 	"golang.org/x/tools/go/ssa"
@@ -28,18 +28,18 @@ type Event struct {
 }
 
 type Violation struct {
-	Harness string
-	Label   string
-	Kind    string // assert | panic | inconclusive
-	Msg     string
-	Trace   []int
-	Model   []interface{} // concrete input values in creation order
-	Pos     string
-	Stack   []string
-	Events  []string
+	Harness             string
+	Label               string
+	Kind                string // assert | panic | inconclusive
+	Msg                 string
+	Trace               []int
+	Model               []interface{} // concrete input values in creation order
+	Pos                 string
+	Stack               []string
+	Events              []string
 	Replayed, Confirmed bool
-	ReplayNote string
-	NativeEvents []string
+	ReplayNote          string
+	NativeEvents        []string
 }
 
 type frame struct {
@@ -57,48 +57,48 @@ type frame struct {
 }
 
 type Interp struct {
-	prog      *ssa.Program
-	eng       *Engine
-	sol       *Solver
-	prefix    []int
-	pos       int
-	trace     []int
-	forks     [][]int
-	globals   map[*ssa.Global]*value
-	initDone  map[*ssa.Package]bool
-	inputs    []*Input
-	frozen    map[*value]string
-	frozenMap map[*MapV]string
-	events    []Event
-	steps     int64
-	blocks    int64
-	depth     int
-	nsym      int
-	ndef      int
-	litIdx    map[string]int
-	lits      []string
-	glen      map[string]*Term
-	fresh     map[string]*Term
-	symMapOrder bool
-	unwind    int
-	inconclusive []string
-	violations []*Violation
-	curFrame  *frame
-	harness   string
-	funcsSeen map[*ssa.Function]bool
-	summUsed  map[string]bool
-	mapIDs    int
-	expectPanic bool
-	assertsChecked int
+	prog              *ssa.Program
+	eng               *Engine
+	sol               *Solver
+	prefix            []int
+	pos               int
+	trace             []int
+	forks             [][]int
+	globals           map[*ssa.Global]*value
+	initDone          map[*ssa.Package]bool
+	inputs            []*Input
+	frozen            map[*value]string
+	frozenMap         map[*MapV]string
+	events            []Event
+	steps             int64
+	blocks            int64
+	depth             int
+	nsym              int
+	ndef              int
+	litIdx            map[string]int
+	lits              []string
+	glen              map[string]*Term
+	fresh             map[string]*Term
+	symMapOrder       bool
+	unwind            int
+	inconclusive      []string
+	violations        []*Violation
+	curFrame          *frame
+	harness           string
+	funcsSeen         map[*ssa.Function]bool
+	summUsed          map[string]bool
+	mapIDs            int
+	expectPanic       bool
+	assertsChecked    int
 	assertsDischarged int
-	pcCount int
-	extra     map[string]interface{}
-	syncHook  func(op string, mu value)
-	panics    []*panicState
-	sched     *schedState
-	maxLZ     int // leading zero bytes allowed in generated keys / signatures
-	errStack  []string
-	errWhere  string
+	pcCount           int
+	extra             map[string]interface{}
+	syncHook          func(op string, mu value)
+	panics            []*panicState
+	sched             *schedState
+	maxLZ             int // leading zero bytes allowed in generated keys / signatures
+	errStack          []string
+	errWhere          string
 }
 
 // ---------- solver plumbing ----------
@@ -1032,7 +1032,7 @@ func (in *Interp) unop(instr *ssa.UnOp, x value) value {
 				if x.I != nil {
 					return &Flt{IsSym: true, I: Neg(x.I)}
 				}
-				return &Flt{IsSym: true, Bits: BXor(x.Bits, BVu(64, 1<<63))}
+				return &Flt{IsSym: true, Bits: BXor(x.Bits, BVu(64, 1<<63)), Dec: x.Dec}
 			}
 			return &Flt{C: -x.C}
 		}
